@@ -725,13 +725,13 @@ func c12EscapingLocal(env *fw.Env, idx int) fw.Result {
 var _ = io.EOF
 
 func init() {
-	packW := &fw.Phase{Name: "pack-writer-fails-at-every-offset", N: fw.Fixed(12, 60), Run: c12PackFaults}
-	unpackR := &fw.Phase{Name: "unpack-reader-fails-or-ends-at-every-offset", N: fw.Fixed(12, 120), Run: c12UnpackFaults}
+	packW := &fw.Phase{Name: "pack-writer-fails-at-every-offset", N: fw.Fixed(30, 100), Run: c12PackFaults}
+	unpackR := &fw.Phase{Name: "unpack-reader-fails-or-ends-at-every-offset", N: fw.Fixed(30, 150), Run: c12UnpackFaults}
 	policy := &fw.Phase{Name: "policy-rejections-are-illegal-slug-errors", Exhaustive: true, N: func(string) int { return 16 }, Run: c12PolicyErrors}
-	builder := &fw.Phase{Name: "builder-every-callback-position-and-crash-point", N: fw.Fixed(60, 500), Run: func(env *fw.Env, idx int) fw.Result { return c12Builder(env, idx, false) }}
+	builder := &fw.Phase{Name: "builder-every-callback-position-and-crash-point", N: fw.Fixed(150, 800), Run: func(env *fw.Env, idx int) fw.Result { return c12Builder(env, idx, false) }}
 	builderPairs := &fw.Phase{Name: "builder-pairs-of-fault-positions", ThoroughOnly: true, N: fw.Fixed(0, 200), Run: func(env *fw.Env, idx int) fw.Result { return c12Builder(env, idx, true) }}
-	escLocal := &fw.Phase{Name: "finder-reports-local-source-leaving-its-package", N: fw.Fixed(300, 5000), Run: c12EscapingLocal}
-	envF := &fw.Phase{Name: "target-directory-becomes-read-only", Chroot: true, Unpriv: true, N: fw.Fixed(20, 300), Run: c12EnvFault}
+	escLocal := &fw.Phase{Name: "finder-reports-local-source-leaving-its-package", N: fw.Fixed(1000, 8000), Run: c12EscapingLocal}
+	envF := &fw.Phase{Name: "target-directory-becomes-read-only", Chroot: true, Unpriv: true, N: fw.Fixed(40, 300), Run: c12EnvFault}
 	fw.Register(&fw.Property{
 		ID:    "C12",
 		Level: "fault_enumeration",
